@@ -5,8 +5,10 @@ mod conv;
 mod engine;
 mod props;
 mod refwire;
+mod second;
 mod shim;
 mod sim;
+mod tlsutil;
 
 fn main() {
     let args: Vec<String> = std::env::args().collect();
